@@ -132,8 +132,10 @@ def check(a):
             continue
         if sig in seen_sig:
             seen_sig[sig]['count'] += 1
+            if len(seen_sig[sig]['members']) < 40:
+                seen_sig[sig]['members'].append(dict(count=1, std=std, plan=plan, v=v, origin=origin, config=cfgs))
             continue
-        ent = dict(count=1, std=std, plan=plan, v=v, origin=origin, config=cfgs)
+        ent = dict(count=1, std=std, plan=plan, v=v, origin=origin, config=cfgs, members=[])
         seen_sig[sig] = ent
     processed = 0
     for sig, ent in sorted(seen_sig.items()):
@@ -141,7 +143,7 @@ def check(a):
         if k is not None:
             known_hit[k['id']] = known_hit.get(k['id'], 0) + ent['count']
             continue
-        if processed >= 6:
+        if processed >= 30:
             log('more distinct violations than processed; skipping minimisation of', sig)
             violations.append((sig, None))
             continue
@@ -151,6 +153,18 @@ def check(a):
             exit2 = True
         elif isinstance(res, tuple) and res[0] == 'known':
             known_hit[res[1]] = known_hit.get(res[1], 0) + ent['count']
+            # known through a predicate over the minimised plan: also look at a few members with other configurations,
+            # a different defect with the same class and site must not hide behind the representative
+            seen_cfg, extra = {ent['config']}, 0
+            for m in ent['members']:
+                if m['config'] in seen_cfg or extra >= 3:
+                    continue
+                seen_cfg.add(m['config']); extra += 1
+                r2 = triage(prop, m, known)
+                if r2 == 'flaky':
+                    exit2 = True
+                elif not isinstance(r2, tuple):
+                    violations.append((sig, r2))
         else:
             violations.append((sig, res))
     wall = time.time() - t0
